@@ -143,6 +143,7 @@ structure Srv where
   session   : Option Nat := none
   routeConn : Bool := false       -- `UCMM.route_conn[target]`: a registered client connection to the route's device
   forwards  : List (Nat × Nat) := []   -- `Connection_Manager.forwards` of this peer: (O->T connection ID, connection serial)
+  refusing  : List (Nat × Nat × Nat) := []   -- addresses of Attributes whose `__setitem__` raises (never changes)
 deriving Repr, DecidableEq
 
 /-! ### pieces of UCMM.request -/
@@ -226,15 +227,37 @@ def Cip.service : Cip → Nat
   | .cm (.fwdOpen large ..) _ => if large then Generated.svcFwdOpenLarge else Generated.svcFwdOpen
   | .cm (.fwdClose ..) _ => Generated.svcFwdClose
 
+/-- the Attribute a top-level Write Tag [Fragmented] assigns to, when everything before the assignment succeeds -/
+def writeTarget (d : Dev) : Req → Option (Nat × Nat × Nat)
+  | .simple (.writeTag p ..) | .simple (.writeFrag p ..) =>
+    (resolveTag d ((routeTarget d router p).getD router) p).map fun (c, i, a, _) => (c, i, a)
+  | _ => none
+
+/-- `Cpppo.Logix.exec`, on a device some of whose Attributes refuse every store (an application's
+`device.Attribute` subclass whose `__setitem__` raises: the documented extension point): the assignment
+`attribute[beg:end] = …` is the last step inside the `try`, with status 0xFF / 0x2105 still pending -- so a write
+that would have succeeded is answered with that status, and nothing changes.  (Only top-level writes are looked
+at: `Frame.inScope` keeps bundled writes and Set Attribute Single away from refusing Attributes.) -/
+def execReq (refusing : List (Nat × Nat × Nat)) (d : Dev) (r : Req) : Dev × Option Bytes :=
+  match writeTarget d r with
+  | some addr =>
+    if refusing.contains addr then
+      match exec d r with
+      | (d', some bs) =>
+        if bs.getD 2 1 = 0 then (d, encodeReply (errReply (reqService r + 128) 255 [0x2105])) else (d', some bs)
+      | x => x
+    else exec d r
+  | none => exec d r
+
 /-- `Connection_Manager.request` on the embedded request: the Object its path designates -- or, when the path
 does not resolve to an existing Object (unknown Tag, unknown Object), the Message Router @2/1 -- parses and
 executes it.  `Cpppo.Logix.exec` starts at the Message Router and routes to the designated Object when it exists,
 which is the same thing; an unknown target is answered by the Message Router itself with CIP status 0x05 (0x16 for
 a Multiple Service Packet).  `none` = an exception leaves `request` (no Object's parser knows the service, or
 the reply cannot be produced). -/
-def cmRequest (d : Dev) (c : Cip) : Dev × Option Bytes :=
+def cmRequest (refusing : List (Nat × Nat × Nat)) (d : Dev) (c : Cip) : Dev × Option Bytes :=
   match c with
-  | .req r _ => exec d r
+  | .req r _ => execReq refusing d r
   | .unknown .. => (d, none)
   | .cm .. => (d, none)           -- (served by `execCm`, see `cmServe`)
 
@@ -281,7 +304,7 @@ def execCm (s : Srv) : CmReq → Srv × Bytes
 def cmServe (s : Srv) (c : Cip) : Srv × Option Bytes :=
   match c with
   | .cm r _ => let (s', bs) := execCm s r; (s', some bs)
-  | c => let (d', o) := cmRequest s.dev c; ({ s with dev := d' }, o)
+  | c => let (d', o) := cmRequest s.refusing s.dev c; ({ s with dev := d' }, o)
 
 /-- CPF item list -/
 def cpfEncode (items : List (Nat × Bytes)) : Bytes :=
@@ -410,11 +433,27 @@ def serveSessions (cfg : Cfg) : Srv → List (List Frame) → List Run
 
 /-! ### which frames the model speaks about -/
 
+/-- a bundled write, or a Set Attribute Single, whose path names a refusing Attribute (not modelled) -/
+def touchesRefusing (refusing : List (Nat × Nat × Nat)) (d : Dev) : Simple → Bool
+  | .writeTag p .. | .writeFrag p .. | .setAttrSingle p _ =>
+    match resolve d.symbols (.dflt 1) p with
+    | some (c, i, a) => refusing.contains (c, i, a.getD 1)
+    | none => false
+  | _ => false
+
+def reqAvoidsRefusing (refusing : List (Nat × Nat × Nat)) (d : Dev) : Req → Bool
+  | .simple (.setAttrSingle p x) => !touchesRefusing refusing d (.setAttrSingle p x)
+  | .simple _ => true
+  | .multiple _ reqs => reqs.all fun m => !touchesRefusing refusing d m
+
 def Cip.isCm : Cip → Bool
   | .cm .. => true
   | _ => false
 
-def Cip.inScope (d : Dev) (c : Cip) : Bool :=
+def Cip.inScope (d : Dev) (c : Cip) (refusing : List (Nat × Nat × Nat) := []) : Bool :=
+  (match c with
+   | .req r _ => reqAvoidsRefusing refusing d r
+   | _ => true) &&
   (c.isCm || match resolve d.symbols .no c.path with
    | some (cl, i, _) => !Generated.builtinClasses.contains cl && i != 0
    | none => true) &&
@@ -430,7 +469,7 @@ def Cip.inScope (d : Dev) (c : Cip) : Bool :=
        Generated.svcGetAttrSingle, Generated.svcSetAttrSingle, Generated.svcGetAttrAll, Generated.svcGetAttrList,
        Generated.svcMultiple].contains code)
 
-def Frame.inScope (cfg : Cfg) (d : Dev) (f : Frame) : Bool :=
+def Frame.inScope (cfg : Cfg) (d : Dev) (f : Frame) (refusing : List (Nat × Nat × Nat) := []) : Bool :=
   f.hdr.context.length == 8 &&
   match f.body with
   | .registerShort bs => bs.length < 4
@@ -438,7 +477,7 @@ def Frame.inScope (cfg : Cfg) (d : Dev) (f : Frame) : Bool :=
   | .sendItems _ _ _ items => items.all fun (t, _) => !Generated.cpfItemTypes.contains t
   | .send _ _ _ w c =>
     -- a bare request whose first byte is 0x52 is taken for an Unconnected Send by the CPF item parser
-    c.inScope d &&
+    c.inScope d refusing &&
     (match routedVia cfg w with
      | some inner =>      -- one hop only; the forwarded request is subject to the same ambiguity
        !c.isCm && !(inner == .direct && c.service == Generated.svcUnconnectedSend) && (routedVia cfg inner).isNone
